@@ -1892,6 +1892,16 @@ def _global_rng(fr, *a, **kw):
     return O.fresh_int('global_rng')
 
 
+@lib('numpy.minimum', 'torch.minimum')
+def _np_minimum(fr, a, b):
+    return elementwise(fr, O.vmin, a, b)
+
+
+@lib('numpy.maximum', 'torch.maximum')
+def _np_maximum(fr, a, b):
+    return elementwise(fr, O.vmax, a, b)
+
+
 @lib('numpy.nan_to_num')
 def _nan_to_num(fr, x, *a, **kw):
     # NaN / inf do not exist in the real-number model: identity (assumption listed in the evidence)
